@@ -231,7 +231,7 @@ def main(argv=None):
         tail = "" if path[1] else " no-failing-input-found"
         vio_lines.append("VIOLATION property=%s replay=%s obligation=%s%s" % (prop, path[0], oid, tail))
     # bounded stand-ins for the parts of the property no contract decides: run on every run, labelled bounded
-    standin_results, standin_found = replay_mod.standin_search(prop, args.repo)
+    standin_results, standin_found = replay_mod.standin_search(prop, args.repo, tier, seed)
     P = dict(P, _standin=standin_results)
     for sr in standin_results:
         if sr.get("known_finding_witnesses"):
